@@ -237,8 +237,8 @@ Definition compress_timestamp (tsref lastts : N) (m : message) : option (N * lis
     if CompressedTimeMask <? wrap 32 (ts + 4294967296 - tsref) then (None, ts, lastts) else
     (Some (N.lor MesgCompressedHeaderMask (N.land ts CompressedTimeMask), remove_first_num (m_fields m) FieldNumTimestamp), tsref, lastts).
 
-(* encodeMessage: bytes written (definition if new, then the message) *)
-Definition encode_message (c : ecfg) (st : estate) (m : message) : outcome (bytes * estate) :=
+(* encodeMessage: the Write calls it issues (the definition if new, then the message) *)
+Definition encode_message_chunks (c : ecfg) (st : estate) (m : message) : outcome (list bytes * estate) :=
   let '(cmp, tsref, lastts) := if e_compressed c then compress_timestamp (es_tsref st) (es_lastts st) m else (None, es_tsref st, es_lastts st) in
   let '(hdr, fs, compressed) := match cmp with Some (h, fs) => (h, fs, true) | None => (MesgNormalHeaderMask, m_fields m, false) end in
   let m := mkmsg hdr (m_num m) fs (m_devs m) in
@@ -247,12 +247,20 @@ Definition encode_message (c : ecfg) (st : estate) (m : message) : outcome (byte
   let '(local, isnew, lru') := lru_put (es_lru st) b in
   let b := match b with h :: r => N.lor h local :: r | [] => [] end in
   let m := mkmsg (N.lor hdr (if compressed then wrap 8 (N.shiftl local CompressedBitShift) else local)) (m_num m) fs (m_devs m) in
-  let defbytes := if isnew then b else [] in
+  let defchunk := if isnew then [b] else [] in
   match marshal_message (e_big c) m with
   | None => Err E_Marshal
   | Some mb =>
-      let out := defbytes ++ mb in
-      Ok (out, mkes lru' tsref lastts (wrap 32 (es_datasize st + len out)) (write (es_crc st) out))
+      let out := concat defchunk ++ mb in
+      Ok (defchunk ++ [mb], mkes lru' tsref lastts (wrap 32 (es_datasize st + len out)) (write (es_crc st) out))
+  end.
+Definition encode_message (c : ecfg) (st : estate) (m : message) : outcome (bytes * estate) :=
+  do x <- encode_message_chunks c st m; Ok (concat (fst x), snd x).
+
+Fixpoint encode_chunks (c : ecfg) (st : estate) (ms : list message) (acc : list bytes) : outcome (list bytes * estate) :=
+  match ms with
+  | [] => Ok (acc, st)
+  | m :: r => do x <- encode_message_chunks c st m; encode_chunks c (snd x) r (acc ++ fst x)
   end.
 
 Fixpoint encode_messages (c : ecfg) (st : estate) (ms : list message) (acc : bytes) : outcome (bytes * estate) :=
@@ -278,6 +286,9 @@ Definition marshal_header (size ver profilever datasize crc : N) : bytes :=
 
 (* input file: requested header size, protocol version, profile version of the caller's FileHeader, and the messages *)
 Record efile := mkefile { ef_hsize : N; ef_proto : N; ef_profile : N; ef_msgs : list message }.
+(* the Write calls of one sequence: header as first written (with the data size the caller's header carried), the final header,
+   one chunk per Write of the record region, the two CRC bytes *)
+Record eparts := mkparts { p_hprov : N -> bytes (* provisional header for a given caller data size *); p_hfinal : bytes; p_chunks : list bytes; p_crc : bytes; p_datasize : N }.
 
 (* result: final bytes of the sequence, the header (size, proto, profile, datasize, crc) and file CRC written back, validated messages *)
 Record eresult := mkeres { er_bytes : bytes; er_header : N * N * N * N * N; er_crc : N; er_msgs : list message }.
@@ -305,4 +316,22 @@ Fixpoint encode_fits (c : ecfg) (fs : list efile) (acc : bytes) : outcome bytes 
   match fs with
   | [] => Ok acc
   | f :: r => do x <- encode_fit c f; encode_fits c r (acc ++ er_bytes x)
+  end.
+
+Definition header_bytes (hsize ver pv ds : N) : bytes :=
+  let h12 := match marshal_header 12 ver pv ds 0 with _ :: r => hsize :: r | [] => [] end in
+  if hsize =? 14 then h12 ++ le_bytes 2 (write 0 h12) else h12.
+
+Definition encode_parts (c : ecfg) (f : efile) : outcome eparts :=
+  let ver := select_version c (ef_proto f) in
+  match ef_msgs f with
+  | [] => Err E_Empty
+  | ms =>
+    do _ <- proto_validate_all ver ms;
+    do vms <- validate_all (e_preserve c) vs_init ms [];
+    do x <- encode_chunks c (es_init c) vms [];
+    let '(chunks, st) := x in
+    let hsize := if ef_hsize f =? 12 then 12 else 14 in
+    let pv := if ef_profile f =? 0 then profile_Version else ef_profile f in
+    Ok (mkparts (header_bytes hsize ver pv) (header_bytes hsize ver pv (es_datasize st)) chunks (le_bytes 2 (es_crc st)) (es_datasize st))
   end.
